@@ -40,9 +40,23 @@ def hook_tail(interp):
 
 
 def interval(vc, name, pattern):
+    """P / N / S: finite interval on the positive side, the negative side, straddling zero; lower-case letters: the same
+    with an infinite end -- p = (a, +inf) with a > 0, n = (-inf, b) with b < 0, l = (-inf, b) with b > 0, r = (a, +inf) with a < 0"""
     a, b = vc.real(name + "_lo"), vc.real(name + "_hi")
-    vc.assume({"P": And(0 < a, a < b), "N": And(a < b, b < 0), "S": And(a < 0, 0 < b)}[pattern])
-    return a, b
+    if pattern in "PNS":
+        vc.assume({"P": And(0 < a, a < b), "N": And(a < b, b < 0), "S": And(a < 0, 0 < b)}[pattern])
+        return a, b
+    if pattern == "p":
+        vc.assume(a > 0)
+        return a, INF
+    if pattern == "n":
+        vc.assume(b < 0)
+        return -INF, b
+    if pattern == "l":
+        vc.assume(b > 0)
+        return -INF, b
+    vc.assume(a < 0)
+    return a, INF
 
 
 def model_obj(vc, d):
@@ -57,7 +71,13 @@ class FastPaths(Lemma):
     def __init__(self, d):
         self.d = d
         self.name = f"property:fast-path-{d}d-equals-general-formula"
-        self.cases = tuple("".join(p) for p in itertools.product("PNS", repeat=d) if "P" in p or "N" in p)
+        straddling = "Slr"
+        finite = ["".join(p) for p in itertools.product("PNS", repeat=d) if "P" in p or "N" in p]
+        if d == 2:
+            withinf = ["".join(p) for p in itertools.product("PNSpnlr", repeat=2) if any(ch in "pnlr" for ch in p) and not all(ch in straddling for ch in p)]
+        else:       # exactly one coordinate with an infinite end
+            withinf = ["".join(p) for p in itertools.product("PNSpnlr", repeat=3) if sum(ch in "pnlr" for ch in p) == 1 and not all(ch in straddling for ch in p)]
+        self.cases = tuple(finite + withinf)
 
     def prove(self, vc, pattern):
         d = self.d
@@ -75,6 +95,11 @@ class FastPaths(Lemma):
         f = lambda v, dflt: float(v["float"]) if isinstance(v, dict) else (float(v) if v is not None else dflt)
         a, b = [], []
         for k, p in enumerate(pattern):
+            if p in "pnlr":
+                lo, hi = {"p": (0.1 * (1 + 0.1 * k), np.inf), "n": (-np.inf, -0.1 * (1 + 0.1 * k)), "l": (-np.inf, 0.25), "r": (-0.2, np.inf)}[p]
+                a.append(lo)
+                b.append(hi)
+                continue
             lo = f(model.get(f"x{k}_lo"), {"P": 0.1, "N": -0.4, "S": -0.2}[p] * (1 + 0.1 * k))
             hi = f(model.get(f"x{k}_hi"), {"P": 0.3, "N": -0.1, "S": 0.25}[p] * (1 + 0.1 * k))
             lo, hi = (max(min(lo, 2.0), -2.0), max(min(hi, 2.0), -2.0))
@@ -156,6 +181,46 @@ class MarginalConsistency(Lemma):
         got = cm.mass((a,), (b,), [0])
         want = nu.integrate(a, b)
         return (abs(got - want) > 1e-9 * max(1.0, abs(want)), {"interval": [a, b], "mass": float(got), "marginal_levy_mass": float(want)})
+
+
+class TailIntegralOfEachModel(Lemma):
+    """marginal_tail_integral (real body) of a SECOND model instance evaluated at a level where another model (other
+    margins) was evaluated before: the result is sgn(x) times the second model's own marginal mass of I(x) -- nothing
+    computed for one model may leak into another (caches)."""
+    prop = "C12"
+    cases = (0.3, -0.3)
+    name = "property:tail-integral-belongs-to-its-model"
+
+    def prove(self, vc, x):
+        it = vc.interp
+        MUA = z3.Function("MU_model_A", z3.RealSort(), z3.RealSort(), z3.RealSort())
+        MUB = z3.Function("MU_model_B", z3.RealSort(), z3.RealSort(), z3.RealSort())
+        big = 10 ** 9
+
+        def integ(i_, f, b_):
+            e = lambda v: as_real_term(lift(-big if (not is_sym(v) and v == -INF) else (big if (not is_sym(v) and v == INF) else v)))
+            F = MUA if b_["self"].fields["tag"] == "A" else MUB
+            return Sym(F(e(b_["a"]), e(b_["b"])), "r")
+        it.hooks["rpylib.model.levymodel.levymodel:LevyMeasure.integrate"] = integ
+        mk = lambda tag: vc.obj(LC + "LevyCopulaModel", _full_indices=[0, 1], _dimension=2,
+                                _marginal_levy_measure=[vc.obj("rpylib.model.levymodel.levymodel:LevyMeasure", tag=tag)] * 2)
+        A, B = mk("A"), mk("B")
+        ua = vc.method(A, "marginal_tail_integral", 0, x)
+        ub = vc.method(B, "marginal_tail_integral", 0, x)
+        lo, hi = (x, big) if x >= 0 else (-big, x)
+        sgn = 1 if x >= 0 else -1
+        nm = f"{self.name}[x={x}]"
+        vc.check(nm + "::first-model", ua == sgn * Sym(MUA(as_real_term(lift(lo)), as_real_term(lift(hi))), "r"))
+        vc.check(nm + "::second-model-at-the-same-level", ub == sgn * Sym(MUB(as_real_term(lift(lo)), as_real_term(lift(hi))), "r"))
+
+    def replay(self, model, clause, x):
+        from contracts import battery
+        a = battery.copula_model(2, "clayton", margins="hem")
+        b = battery.copula_model(2, "clayton", margins="cgmy")
+        ua = a.marginal_tail_integral(0, x)
+        ub = b.marginal_tail_integral(0, x)
+        want = np.sign(x) * (b.models[0].levy_triplet.nu.integrate(x, np.inf) if x >= 0 else b.models[0].levy_triplet.nu.integrate(-np.inf, x))
+        return (abs(ub - want) > 1e-12 * max(1.0, abs(want)), {"x": x, "first_model": float(ua), "second_model": float(ub), "second_model_own_tail": float(want)})
 
 
 _COP = {}
@@ -248,7 +313,7 @@ class MarginTailIntegral(FunctionContract):
         return (abs(got - want) > 1e-9 * max(1.0, abs(want)), {"dimension": d, "indices": list(idx), "x": xs, "margin_tail_integral": got, "recomputed": want})
 
 
-UNITS = [FastPaths(2), FastPaths(3), Additivity(2), Additivity(3), MarginalConsistency(), MarginTailIntegral()]
+UNITS = [FastPaths(2), FastPaths(3), Additivity(2), Additivity(3), MarginalConsistency(), MarginTailIntegral(), TailIntegralOfEachModel()]
 ASSUMPTIONS = ["A1: floats are mathematical reals", "(G) tail integrals vanish when a coordinate is infinite (C11 groundedness; nu_i((x, inf)) -> 0)",
                "non-negativity of the mass = d-increasing copula composed with monotone tail integrals (C11 + A6), not re-proved here",
                "equality with the integral of the joint density: d-dimensional fundamental theorem of calculus (A6)"]
